@@ -632,6 +632,90 @@ fn run_scripted_case(step: u64, kind: u64, shape: u64, peer_other_case: bool, tr
     res
 }
 
+// ---------------------------------------------------------------- S3: a peer that defends the names it holds, but late
+
+/// A scripted peer holds the instance with exactly the SRV and TXT the daemon proposes (SRV target:
+/// the contested host name) and the host name with another address.  It ignores the daemon's first
+/// `k` probe rounds and from then on answers every probe that asks for a name it holds, `lat` ms
+/// after the probe (SRV and TXT before the address record).  The daemon has to give up the host
+/// name and, because its SRV then differs from the holder's, the instance name too.
+fn run_defender(k: u64, lat: u64, trace: bool) -> CaseResult {
+    let mut res = CaseResult::default();
+    let mut w = World::one(lay_v4());
+    w.trace = trace;
+    w.ds[0].h.set_ip_check_interval(0).unwrap();
+    w.ds[0].ctl.set_rng_default(0);
+    w.poke(0);
+    let ty = n("_t._tcp.local");
+    let inst = n("one._t._tcp.local");
+    let host = n("myhost.local");
+    let t0 = w.now;
+    w.ds[0].h.register(svc("_t._tcp.local.", "one", "myhost.local.", "10.0.0.5", 80, &[("k", "v")])).unwrap();
+    w.poke(0);
+    let defence = build(&response(vec![srv(&inst, &host, 80, 120), txt(&inst, &txt_rdata(&[(b"k", Some(b"v"))]), 4500), a(&host, [10, 0, 0, 200], 120)]));
+    let end = t0 + 9000;
+    let mut seen = 0usize;
+    let mut rounds = 0u64;
+    let mut due: Vec<u64> = vec![];
+    loop {
+        // probes sent since the last look
+        let new_probes: Vec<u64> = w.log[seen..].iter().filter_map(|e| match &e.kind {
+            Kind::Out(o) if o.msg.as_ref().is_ok_and(|m| !m.is_response() && !m.authorities.is_empty() && m.questions.iter().any(|q| q.qtype == T_ANY && (name_eq_ci(&q.name, &inst) || name_eq_ci(&q.name, &host)))) => Some(e.t),
+            _ => None,
+        }).collect();
+        seen = w.log.len();
+        for t in new_probes {
+            rounds += 1;
+            if rounds > k {
+                due.push(t + lat);
+            }
+        }
+        due.sort_unstable();
+        let next_due = due.first().copied();
+        let next_wake = w.next_wake().map(|x| x.0);
+        match (next_due, next_wake) {
+            (Some(d), nw) if nw.map_or(true, |n| d <= n) => {
+                if d > end {
+                    break;
+                }
+                w.set_now(d.max(w.now));
+                due.remove(0);
+                w.deliver(0, IF0, PEER0, defence.clone());
+                res.count("defences_sent", 1);
+            }
+            _ => {
+                if !w.wake_next(end) {
+                    break;
+                }
+            }
+        }
+    }
+    let tag = format!("the holder answers from probe round {} on, {lat} ms after each probe", k + 1);
+    if let Some(f) = daemon_fault(&w, 0) {
+        res.viols.push(viol(format!("C08|daemon-fault|{}|late-defender", panic_sig(&f)), format!("{tag}: {f}")));
+        return res;
+    }
+    let fin = final_names(&w, 0, &ty);
+    res.count("defender_runs", 1);
+    if fin.announcements == 0 {
+        res.viols.push(viol("C08|never-announced-after-conflict|late-defender", tag.clone()));
+    } else {
+        let fi = fin.inst.clone().unwrap();
+        let fh = fin.a_owner.clone().unwrap();
+        if name_eq_ci(&fh, &host) {
+            res.viols.push(viol("C08|announced-under-the-contested-host-name|late-defender", format!("{tag}: {}", show_name(&fh))));
+        }
+        if name_eq_ci(&fi, &inst) {
+            res.viols.push(viol("C08|announced-under-the-contested-instance-name|late-defender", format!("{tag}: announced {} with SRV target {:?} while the holder has it with target {}", show_name(&fi), fin.srv_target.as_ref().map(show_name), show_name(&host))));
+        }
+    }
+    res.nontrivial = true;
+    res.transitions = w.steps;
+    res.outcome = outcome_hash(&w.log);
+    res.states = final_states(&w);
+    res
+}
+
 pub fn check(tier: &str) -> i32 {
     let mut rep = Report::new("C08", tier, "model_checking");
     let thorough = rep.thorough();
@@ -688,6 +772,16 @@ pub fn check(tier: &str) -> i32 {
         run: Box::new(move |i, tr| { let x = unrank(i, &sdims); run_scripted_case(x[0], x[1], x[2], x[3] == 1, tr) }),
     };
     rep.run_part(&scripted, Duration::from_secs(300));
+    let ddims = [3u64, 3];
+    let defender = FnPart {
+        name: "S-late-defender".into(),
+        rule: "a scripted peer holds the instance (with the SRV and TXT the daemon proposes, SRV target = the contested host name) and the host name (with another address); it stays silent for the daemon's first 0 / 1 / 2 probe rounds and then answers every probe for a name it holds, 0 / 60 / 200 ms after the probe; the daemon must end up announced under another host name and another instance name".into(),
+        n: product(&ddims),
+        describe: Box::new(move |i| format!("{:?}", unrank(i, &ddims))),
+        run: Box::new(move |i, tr| { let x = unrank(i, &ddims); run_defender(x[0], [0, 60, 200][x[1] as usize], tr) }),
+    };
+    rep.run_part(&defender, Duration::from_secs(120));
+    rep.require("S-late-defender", "defences_sent");
     rep.require("L-tiebreak-pairs", "decided");
     rep.require("S-two-daemons-one-name", "runs_with_all_announced");
     rep.require("S-two-daemons-one-name", "renames_observed");
